@@ -3,13 +3,15 @@ mod core_sim;
 mod driver;
 mod fw;
 mod rec;
+mod reclayer;
+mod registry_sim;
 mod sites;
 
 use fw::{Engine, GenCtx};
 use serde_json::Value;
 use std::io::Read;
 
-static ENGINES: &[&(dyn Engine)] = &[&appender::AppenderEngine, &core_sim::CoreEngine];
+static ENGINES: &[&(dyn Engine)] = &[&appender::AppenderEngine, &core_sim::CoreEngine, &registry_sim::RegistryEngine];
 
 fn engine_for_prop(prop: &str) -> Option<&'static dyn Engine> {
     ENGINES.iter().copied().find(|e| e.props().contains(&prop))
@@ -25,6 +27,8 @@ fn budget(prop: &str) -> (u64, u64) {
         "C01" => (150_000, 3_000_000),
         "C02" => (150_000, 3_000_000),
         "C04" => (150_000, 3_000_000),
+        "C05" => (120_000, 2_500_000),
+        "C06" => (120_000, 2_500_000),
         _ => (40_000, 1_000_000),
     }
 }
